@@ -827,6 +827,34 @@ fn build_corpus(seed: u64) -> Corpus {
 		}
 	}
 
+	// ---- headers with a genuine proof of work and field values no honest chain has: only a header whose proof verifies
+	// gets past the PoW check of the untrusted reader to the bounds evaluated after it (global weight against the height)
+	let mut mined_extreme: Vec<(String, BlockHeader)> = vec![];
+	for (i, height) in [1u64 << 50, (1u64 << 59) + 1, 1u64 << 63, u64::MAX - 1, u64::MAX, 461_168_601_842_739, 461_168_601_842_738].iter().enumerate() {
+		for (j, (osz, ksz)) in [(1u64, 1u64), (u64::MAX, u64::MAX), (1u64 << 62, 3), (7, 1u64 << 63)].iter().enumerate() {
+			let mut h = BlockHeader::default();
+			h.height = *height;
+			h.version = consensus::header_version(*height);
+			h.prev_hash = rnd_hash(&mut p);
+			h.prev_root = rnd_hash(&mut p);
+			h.timestamp = fixed_ts(60 * (1000 + i as i64));
+			h.output_mmr_size = *osz;
+			h.kernel_mmr_size = *ksz;
+			h.pow.total_difficulty = blk_med.header.total_difficulty() + Difficulty::min_dma();
+			h.pow.proof.edge_bits = global::min_edge_bits();
+			if world::mine(&mut h, blk_med.header.total_difficulty()).is_ok() {
+				mined_extreme.push((format!("mined header height={} sizes#{}", height, j), h));
+			}
+		}
+	}
+	for (label, h) in &mined_extreme {
+		b.add(D_UHEADER, 0, u32::MAX, false, label, h);
+	}
+	if let Some((_, h)) = mined_extreme.first() {
+		let xb = Block { header: h.clone(), body: blk_small.body.clone() };
+		b.add(D_UBLOCK, 0, u32::MAX, false, "block under a mined header with an extreme height", &xb);
+	}
+
 	b.add(D_TX, 0, u32::MAX, true, "1in-2out plain", &tx1);
 	b.add(D_TX, 0, u32::MAX, true, "2in-2out height-locked", &tx2);
 	b.add(D_TX, 0, u32::MAX, true, "aggregate 4in-5out-3kern", &agg);
